@@ -1,6 +1,7 @@
 """C01, C02, C04, C06: Router.tla model checking + replay of every explored
 state through the real ApiDescription / router / OpenAPI generator."""
 import json
+import os
 import time
 
 import vlib
@@ -128,6 +129,24 @@ def run_router_check(prop, tier):
                          "known_hits": sum(res.known.values()), "tlc_wall_s": round(res.wall, 1),
                          "coverage": {k: list(v) for k, v in res.coverage.items()}}
     live = vlib.live_versioned(prop, tier, findings) if prop in ("C01", "C04") else {}
+    if prop == "C06":
+        # "every schema or response reference resolves inside the document", on a document with real types:
+        # the corpus of the C07 driver (typed headers, nested and shared types, custom error types)
+        import subprocess
+        dpath = os.path.join(vlib.WORK, "doc-refs-C06.ndjson")
+        p = subprocess.run([vlib.harness_bin("drive_doc"), dpath], env=dict(os.environ, VERIF_SEED=str(vlib.seed())),
+                           stdout=subprocess.PIPE, stderr=subprocess.PIPE, text=True, timeout=1500)
+        if p.returncode != 0:
+            raise vlib.ToolError("drive_doc failed: %s" % p.stderr[-1500:])
+        with open(dpath) as f:
+            refs = [json.loads(x) for x in f if '"ev":"doc_refs"' in x]
+        if not refs:
+            raise vlib.ToolError("drive_doc recorded no doc_refs event")
+        for r in refs:
+            for u in r["unresolved"]:
+                findings.add({"engine": "doc-refs", "kind": "dangling-ref", "shape": "other"},
+                             {"reference": u, "note": "a $ref of the generated document does not resolve inside it"})
+        live = dict(live, typed_document_refs_checked=True, unresolved=sum(len(r["unresolved"]) for r in refs))
     rc = findings.report()
     vlib.write_evidence(
         prop, tier, "model_checking",
